@@ -8,7 +8,7 @@ import (
 // numeric / textual scalars worth offering to every parser
 func scalarZoo() []TV {
 	out := []TV{}
-	for _, s := range []string{"", "0", "7", "007", "010", "0100", "-017", "011", "00", "08", "-0", "+5", "-3", "3.7", "-3.7", "3.", ".5", "1e3", "0x10", " 5", "5 ", "1_000", "abc", "1:5", "९", "9223372036854775807",
+	for _, s := range []string{"", "0", "7", "007", "010", "0100", "-017", "011", "00", "08", "-0", "+5", "-3", "3.7", "-3.7", "3.", ".5", "1e3", "0x10", "1.5E3", "1E3", "2.5E2", "1.5e3", "15E2", "-1.5E1", "1.0E0", "12e-1", " 5", "5 ", "1_000", "abc", "1:5", "९", "9223372036854775807",
 		"9223372036854775808", "-9223372036854775808", "4611686018427387904", "12345678901234567890123", "--5", "5-", "1.2.3", "NaN", "Inf", "-"} {
 		out = append(out, tvStr(s), tvJSON(s))
 	}
@@ -78,7 +78,7 @@ func init() {
 				}
 			}
 			// end to end: accepted => matchable.  One document per value; queries with candidate values.
-			cands := []int64{0, 1, 2, 3, 5, 7, 8, 9, 10, -3, 4, 127, 255, 1000, 2000, 64, 100, -15, -17, 11}
+			cands := []int64{0, 1, 2, 3, 5, 7, 8, 9, 10, -3, 4, 127, 255, 1000, 2000, 64, 100, -15, -17, 11, 1500, 250, 15}
 			mkQueries := func(f int) []eQuery {
 				var qs []eQuery
 				for _, c := range cands {
@@ -87,7 +87,7 @@ func init() {
 				qs = append(qs, eQuery{A: []eAssign{{F: f, V: tvStr("abc")}}}, eQuery{A: []eAssign{{F: f, V: tvStr("7")}}}, eQuery{})
 				return qs
 			}
-			small := append(allShapes(), tvStr("010"), tvJSON("0100"), tvSlice("[]string", tvStr("-017"), tvStr("011")), tvStr("1:5:2"), tvStr("1:5:0"), tvStr("0:20:7"), tvStr("5:1"), tvFloat("float64", -3), tvStr("3.7"), tvSlice("[]float64", tvFloat("float64", 3.7)))
+			small := append(allShapes(), tvStr("1.5E3"), tvJSON("2.5E2"), tvStr("1.5e3"), tvStr("010"), tvJSON("0100"), tvSlice("[]string", tvStr("-017"), tvStr("011")), tvStr("1:5:2"), tvStr("1:5:0"), tvStr("0:20:7"), tvStr("5:1"), tvFloat("float64", -3), tvStr("3.7"), tvSlice("[]float64", tvFloat("float64", 3.7)))
 			for _, v := range small {
 				for _, p := range []string{"", "number", "strhash", "numrange"} {
 					if p == "numrange" && v.T == "string" && v.S != nil && (*v.S == "1:5:0") {
